@@ -8,9 +8,12 @@ def impl(case):
     from harness import cls
     g, x = case["gens"], case["query"]
     out = {}
+    from paulie import PauliStringCollection
+    routes = case.get("routes", ["parse"])
     def fresh():
         return cls._coll(g)
-    X = lambda: cls._coll(x)  # noqa: E731
+    def X():   # the query collection holds objects reached through different public routes
+        return PauliStringCollection([cls.mk_string(s, routes[i % len(routes)]) for i, s in enumerate(x)]) if x else cls._coll(x)
     for name, f in (("sel", lambda: sorted(str(v) for v in fresh().select_dependents(X()))),
                     ("in", lambda: bool(fresh().is_in(X()))),
                     ("eq", lambda: bool(fresh().is_eq(X())))):
@@ -69,13 +72,15 @@ def main():
     if not ck.build():
         ck.finish()
     ck.check_props()
+    from harness.cls import STRING_ROUTES as cls_routes
     base = G.exhaustive_small()[::7] + G.collections(ck.rng, 500 if ck.quick else 5000, 2, 4) + G.collections(ck.rng, 200 if ck.quick else 2500, 5, 5 if ck.quick else 7)
     clos = ck.oracle(["closure %d %s" % (n, " ".join(g)) for _, n, g in base])
     cases = []
     for (kind, n, g), c in zip(base, clos):
         g = [s for s in g]
         x = queries(ck.rng, n, g, c.split())
-        cases.append({"n": n, "gens": g, "query": x, "space": n <= (3 if ck.quick else 4) and ck.rng.random() < 0.5})
+        cases.append({"n": n, "gens": g, "query": x, "space": n <= (3 if ck.quick else 4) and ck.rng.random() < 0.5,
+                      "routes": [ck.rng.choice(cls_routes) for _ in range(3)]})
     # corpus: the recorded witness of the known finding (a member of the closure not recognised on a graph with 5 single legs)
     cases.append({"n": 6, "gens": ["ZIXYIZ", "XIIXXY", "IIZYXI", "IIYXZI", "YXIYYY", "ZIYYII"], "query": ["ZXYIXZ"], "space": False})
     res = ck.impl("c08", cases, per_case_s=120)
